@@ -2,7 +2,6 @@
 //! iterator cursors; it_*: every next/next_back word over the iterator wrappers; drain_*: cache state
 //! after a drain is dropped.
 use super::common::*;
-use super::sub::{state_q3, state_t};
 use super::*;
 
 // ---- iter_link: `linked()` of verus/iter.vt, rendered executable ---------------------------------
@@ -44,7 +43,7 @@ fn t_iter_link() {
 //      from the back, each entry once, then None for ever (fused); the cache is unchanged ------------
 fn body_it_borrowing(c: LruCache<u8, SV, BH>, kind: u8, steps: usize) {
     let o = order(&c);
-    let fp = super::frame::fingerprint(&c);
+    let fp = fingerprint(&c);
     let mut it = c.iter();
     let mut ks = c.keys();
     let mut vs = c.values();
@@ -65,7 +64,7 @@ fn body_it_borrowing(c: LruCache<u8, SV, BH>, kind: u8, steps: usize) {
         }
         s += 1;
     }
-    assert!(super::frame::fingerprint(&c) == fp, "borrowing iterator wrote to the cache");
+    assert!(fingerprint(&c) == fp, "borrowing iterator wrote to the cache");
 }
 #[kani::proof]
 #[kani::unwind(7)]
